@@ -54,7 +54,7 @@ def make(r, flavor="plain", elem="L", mk="L::new()", refmut=False):
         if flavor == "typeform" and not generic:
             head = "self::Alias, "
             items += " type Alias = S;"
-        if flavor == "typed":
+        if flavor in ("typed", "typed_ref"):
             ann = ": S"
         stmt = "let v = %s; konst::destructure!{%s{%s}%s = %sv}" % (val, head, fields, ann, ref)
     elif sh == "tuple_struct":
@@ -71,24 +71,31 @@ def make(r, flavor="plain", elem="L", mk="L::new()", refmut=False):
             name = "TS"
         val = "%s(%s)" % (name, ", ".join([mk] * n))
         head = ("%s<%s>, " % (name, elem)) if generic else name
-        if flavor == "typed":
+        if flavor in ("typed", "typed_ref"):
             ann = ": %s" % name
         stmt = "let v = %s; konst::destructure!{%s(%s)%s = %sv}" % (val, head, ", ".join(pats), ann, ref)
     elif sh == "tuple":
         val = "(%s%s)" % (", ".join([mk] * n), "," if n == 1 else "")
         ptxt = ", ".join(pats) + ("," if len(pats) == 1 else "")
-        if flavor == "typed":
+        if flavor in ("typed", "typed_ref"):
             ann = ": (%s%s)" % (", ".join([elem] * n), "," if n == 1 else "")
         stmt = "let v = %s; konst::destructure!{(%s)%s = %sv}" % (val, ptxt, ann, ref)
     else:
         val = "[%s]" % ", ".join([mk] * n)
-        if flavor == "typed" or n == 0:
+        if flavor in ("typed", "typed_ref") or n == 0:
             ann = ": [%s; %d]" % (elem, n)
-        if r["isref"]:
+        if r["isref"] and flavor != "typed_ref":
             ann = ""
         stmt = "let v: [%s; %d] = %s; konst::destructure!{[%s]%s = %sv}" % (elem, n, val, ", ".join(pats), ann, ref)
     if refmut and r["isref"]:
         stmt = stmt.replace("let v", "let mut v", 1)
+    if flavor == "typed_ref" and r["isref"]:
+        # the annotation names the reference type itself (`(a,): &mut (T,) = &mut v`)
+        rk = "&mut " if refmut else "&"
+        import re as _re
+        if ann:
+            k = stmt.rfind(ann + " = ")
+            stmt = stmt[:k] + ": %s%s = " % (rk, ann[2:]) + stmt[k + len(ann) + 3:]
     return items, stmt, binds
 
 
